@@ -69,7 +69,7 @@ func initializeATPServerSession(
 ) *atpServerSession {
 	workDone := make(chan ServerError, 3)
 	// The ATP protocol uses CBOR.
-	cborStdin := cbor.NewDecoder(stdin)
+	cborStdin := payloadDecMode.NewDecoder(stdin)
 	cborStdout := cbor.NewEncoder(stdout)
 	runDoneChannel := make(chan bool, 3) // Buffer to prevent it from hanging if something unexpected happens.
 
@@ -208,7 +208,7 @@ func (s *atpServerSession) onRuntimeMessageReceived(message *DecodedRuntimeMessa
 	switch message.MessageID {
 	case MessageTypeWorkStart:
 		var workStartMsg WorkStartMessage
-		if err := cbor.Unmarshal(message.RawMessageData, &workStartMsg); err != nil {
+		if err := payloadDecMode.Unmarshal(message.RawMessageData, &workStartMsg); err != nil {
 			s.workDone <- ServerError{
 				RunID:       runID,
 				Err:         fmt.Errorf("failed to decode work start message: %w", err),
@@ -221,7 +221,7 @@ func (s *atpServerSession) onRuntimeMessageReceived(message *DecodedRuntimeMessa
 		return false
 	case MessageTypeSignal:
 		var signalMessage SignalMessage
-		if err := cbor.Unmarshal(message.RawMessageData, &signalMessage); err != nil {
+		if err := payloadDecMode.Unmarshal(message.RawMessageData, &signalMessage); err != nil {
 			s.workDone <- ServerError{
 				RunID:       runID,
 				Err:         fmt.Errorf("failed to decode signal message: %w", err),
